@@ -200,12 +200,18 @@ pub struct Live {
 pub const BOUND_CHANNEL: u16 = 0x4001;
 
 impl Live {
-    pub fn new() -> Self {
+    pub fn new() -> Self { Self::with(0, true, None) }
+    /// `mode`: 0 WebRTC, 1 SRTP(SDES), 2 plain RTP; `receiver`: a data receiver is installed (otherwise media is
+    /// buffered); `state`: ICE transport state forced through the hook
+    pub fn with(mode: u8, receiver: bool, state: Option<rustrtc::transports::ice::IceTransportState>) -> Self {
         let rt = tokio::runtime::Builder::new_current_thread().enable_all().build().unwrap();
         let (ice, rec, sock, sink, turn, peer) = rt.block_on(async {
-            let (ice, _runner) = IceTransport::new(rustrtc::RtcConfiguration::default());
+            let mut cfg = rustrtc::RtcConfiguration::default();
+            cfg.transport_mode = match mode { 1 => rustrtc::TransportMode::Srtp, 2 => rustrtc::TransportMode::Rtp, _ => rustrtc::TransportMode::WebRtc };
+            let (ice, _runner) = IceTransport::new(cfg);
             let rec = Arc::new(Rec(Mutex::new(vec![])));
-            ice.set_data_receiver(rec.clone()).await;
+            if receiver { ice.set_data_receiver(rec.clone()).await; }
+            if let Some(st) = state { ice.verif_set_state(st); }
             let sock = Arc::new(tokio::net::UdpSocket::bind("127.0.0.1:0").await.unwrap());
             let sink_sock = tokio::net::UdpSocket::bind("127.0.0.1:0").await.unwrap();
             let sink = sink_sock.local_addr().unwrap();
@@ -351,6 +357,25 @@ pub fn special(run: &mut Run, rng: &mut Rng, thorough: bool) {
                 super::run_bytes(run, &ts[1], &m, true);
                 run_hpkt(run, &live, &m, true);
                 run_turnpkt(run, &live, &m, true);
+            }
+        }
+    }
+    // other agent configurations: plain-RTP mode in state Connected (every request counts as authenticated and a new
+    // source becomes a remote candidate), SDES mode while Checking, and WebRTC without a data receiver (media is buffered)
+    {
+        use rustrtc::transports::ice::IceTransportState as S;
+        for (mode, recv, st) in [(2u8, true, Some(S::Connected)), (1, true, Some(S::Checking)), (0, false, Some(S::Checking)), (0, true, Some(S::Closed))] {
+            let l2 = Live::with(mode, recv, st);
+            let own = l2.ice.local_parameters().username_fragment;
+            run_hpkt(run, &l2, &[], true);
+            for _ in 0..(if thorough { 3_000 } else { 150 }) {
+                let p = match rng.below(4) { 0 => { let m = mi_framed(rng, &own); rng.pick(&m).clone() } 1 => gen_binding_req(rng), _ => gen_inner(rng) };
+                if recv { run_hpkt(run, &l2, &p, true); run_turnpkt(run, &l2, &p, true); }
+                else {
+                    // no receiver: the model's `fwd` cases are buffered instead — compare nothing, keep the oracles
+                    let pp = p.clone(); let lr = std::panic::AssertUnwindSafe(&l2);
+                    exec(run, "hpktbuf", &hex(&p), "ice::handle_packet(buffering)", true, None, move || { lr.rt.block_on(lr.ice.verif_handle_packet(&pp, lr.sink, rustrtc::transports::ice::IceSocketWrapper::Udp(lr.sock.clone()))); "noncompared".into() });
+                }
             }
         }
     }
